@@ -90,6 +90,8 @@ def check(ctx):
     ctx.attempt(_escape)
     ctx.attempt(_cache_purity)
     ctx.attempt(forward.check_all, module_suffixes=('trs.trs', 'config.master_config'))
+    from .c14 import settings_are_inputs    # a Config object is shared by every description created with it
+    ctx.attempt(settings_are_inputs, rule='GLOBALS')
     from . import memo          # a result cache anywhere in the package is process / object state
     ctx.attempt(memo.check, list(ctx.repo.funcs.values()))
     from .c14 import fresh_inputs      # (lazy: c14 imports this module)
